@@ -4547,6 +4547,29 @@ func (t *Terminal) Loop() error {
 						// Goroutine 3 is responsible for cancelling running preview command
 						go func(version int64) {
 							timer := time.NewTimer(previewDelayed)
+							// A cancel request is sent only once, without blocking, so it is
+							// lost if it arrives before this goroutine starts listening. A
+							// newer request waiting in the box means the same thing.
+							poll := time.NewTicker(previewChunkDelay)
+							kill := func(immediately bool) {
+								if immediately {
+									util.KillCommand(cmd)
+								} else {
+									// We can immediately kill a long-running preview program
+									// once we started rendering its partial output
+									delay := previewCancelWait
+									if rendered.Get() {
+										delay = 0
+									}
+									timer := time.NewTimer(delay)
+									select {
+									case <-timer.C:
+										util.KillCommand(cmd)
+									case <-finishChan:
+									}
+									timer.Stop()
+								}
+							}
 						Loop:
 							for {
 								select {
@@ -4555,28 +4578,18 @@ func (t *Terminal) Loop() error {
 								case <-timer.C:
 									t.reqBox.Set(reqPreviewDelayed, version)
 								case immediately := <-t.killChan:
-									if immediately {
-										util.KillCommand(cmd)
-									} else {
-										// We can immediately kill a long-running preview program
-										// once we started rendering its partial output
-										delay := previewCancelWait
-										if rendered.Get() {
-											delay = 0
-										}
-										timer := time.NewTimer(delay)
-										select {
-										case <-timer.C:
-											util.KillCommand(cmd)
-										case <-finishChan:
-										}
-										timer.Stop()
-									}
+									kill(immediately)
 									break Loop
+								case <-poll.C:
+									if t.previewBox.Peek(reqPreviewEnqueue) {
+										kill(false)
+										break Loop
+									}
 								case <-finishChan:
 									break Loop
 								}
 							}
+							poll.Stop()
 							timer.Stop()
 							reapChan <- true
 						}(version)
